@@ -3,6 +3,7 @@
 
 #include "position.h"
 #include "types.h"
+#include "verif_hooks.h"
 
 #include <map>
 #include <random>
@@ -34,7 +35,23 @@ class PolyglotBook
     mutable std::mt19937 _gen;
     mutable std::uniform_int_distribution<std::mt19937::result_type> _dist;
     mutable size_t _seed;
+
+    VERIF_FRIENDS
 };
+
+#ifdef CHESSPP_VERIF
+namespace verif
+{
+struct PeekBook
+{
+    static const std::map<uint64_t, std::vector<PolyglotBook::WeightedMove>>&
+    records(const PolyglotBook& b)
+    {
+        return b._hashmap;
+    }
+};
+}  // namespace verif
+#endif
 
 }  // namespace engine
 
